@@ -1,7 +1,7 @@
 #!/usr/bin/env python3
 """Run behaviour-preserving changes against ALL checks: none may raise an alarm.
 
-usage: tools/batch_neutral.py [-j N] <dir-with-neutral/<n>/patch.diff> ...
+usage: tools/batch_neutral.py [-j N] [--props C03,C10,...] <dir-with-neutral/<n>/patch.diff> ...
 
 For each <dir>/neutral/<n>/ (patch.diff, meta.json): the patch is applied to a scratch copy of
 /repo's HEAD (one per worker, under /var/tmp), the existing suite is run (must pass), then every
@@ -22,6 +22,9 @@ def sh(cmd, cwd, timeout=3000):
         return r.returncode, r.stdout.decode(errors="replace")
     except subprocess.TimeoutExpired:
         return 124, "timeout"
+
+
+PROPS = ["C%02d" % i for i in range(1, 21)]
 
 
 def worker(k, q, tier, lock):
@@ -48,7 +51,7 @@ def worker(k, q, tier, lock):
             rc, out = sh("go build ./... && go test -count=1 ./... 2>&1 | tail -15", mrepo)
             res["suite_passes"] = rc == 0 and "FAIL" not in out
             res["alarms"] = {}
-            for prop in ["C%02d" % i for i in range(1, 21)]:
+            for prop in PROPS:
                 rc, out = sh("VERIF_EVIDENCE_DIR=%s VERIF_REPO=%s ./check %s --tier %s --seed 1 2>&1 | grep -v '^KNOWN-FINDING' | tail -3"
                              % (evid, mrepo, prop, tier), VERIF)
                 viol = [l for l in out.splitlines() if l.startswith("VIOLATION")]
@@ -69,6 +72,8 @@ def main():
             j = int(args.pop(0))
         elif a == "--tier":
             tier = args.pop(0)
+        elif a == "--props":
+            PROPS[:] = args.pop(0).split(",")
         else:
             prefixes.append(a)
     names = []
